@@ -407,7 +407,8 @@ def normalize_docfrags(root: Any) -> int:
             changes += fix(s, [cf])
     for key, dt in (("comparam_subsets", DocType.COMPARAM_SUBSET), ("comparam_specs", DocType.COMPARAM_SPEC)):
         for d in root[key]:
-            frags = [OdxDocFragment(d.short_name, dt)]
+            # (a subset without CATEGORY is an ODX 2.0 COMPARAM-SPEC document: keep the document type its own ID has)
+            frags = [OdxDocFragment(d.short_name, d.odx_id.doc_fragments[0].doc_type if d.odx_id.doc_fragments else dt)]
             for s in R.walk(d):
                 changes += fix(s, frags)
     return changes
